@@ -27,6 +27,17 @@ Theorem encode_injective : forall (s : shape) (v1 v2 : value) (r1 r2 : list N),
   encode v1 ++ r1 = encode v2 ++ r2 -> v1 = v2 /\ r1 = r2.
 Proof. exact encode_prefix_free. Qed.
 
+(** canonical: on genuine bytes the decoder succeeds on nothing but the encoding of a well-typed value
+    (no second byte string decodes to the same value, no junk is accepted) *)
+Theorem decode_accepts_exactly_encodings : forall (s : shape) (bs : list N) (v : value) (rest : list N),
+  bytes_ok bs ->
+  (decode s bs = Some (v, rest) <-> bs = encode v ++ rest /\ has_shape v s = true).
+Proof. exact decode_iff. Qed.
+
+(** and every encoding consists of genuine bytes *)
+Theorem encode_yields_bytes : forall v : value, bytes_ok (encode v).
+Proof. exact encode_bytes_ok. Qed.
+
 (** the equality test used by the run-time oracle on recorded trees decides equality *)
 Theorem value_eqb_sound : forall a b : value, value_eqb a b = true -> a = b.
 Proof. exact value_eqb_eq. Qed.
